@@ -1,2 +1,93 @@
+"""C02 - dynamic tags on the legacy path (merchant_utils._resolve_dynamic_tags, used by the tuple loop of normalize_merchant and by apply_tag_rules):
+a static tag contributes itself (stripped, lower-cased); a {expression} tag contributes the lower-cased value of THAT expression text - the text
+between the braces, stripped, otherwise exactly as written (letter case matters inside regular expressions and string literals) - evaluated on the
+transaction; empty texts, empty values and expressions that fail contribute nothing; every tag of the list is processed."""
+import ast
+
+import z3
+
+from pyvc.extract import find_function
+from pyvc.interp import Interp, Spec, LoopSpec, PyRaise, Frame
+from pyvc.runner import Harness
+from pyvc.values import SymSeq, Obj, Func, Untracked, UF, StrS, IntS, BoolS, ObjS, to_z3
+
+MU = 'tally.merchant_utils.'
+strip = UF('str.strip', StrS, StrS)
+lower = UF('str.lower', StrS, StrS)
+
+
+def h_dynamic_tags(ctx):
+    sp = Spec()
+    sp.exc_table.update({'ExpressionError': 'Exception'})
+    I = Interp(ctx, sp)
+    q = MU + '_resolve_dynamic_tags'
+    fi = find_function(q)
+    tags = ctx.fresh('tags', z3.SeqSort(StrS))
+    txn = Obj(ctx.fresh('transaction', ObjS), 'pydict')
+    seen = {}
+
+    def cur_tag(I_):
+        return seen['raw']
+
+    def m_ctx(I_, a, k, n):
+        ctx.check('C02.dynamic_tag.evaluated_on_this_transaction', isinstance(a[0], Obj) and a[0].expr is txn.expr, 'property')
+        return Obj(I_.fresh('tctx', ObjS), 'tctx')
+
+    def m_parse(I_, a, k, n):
+        t = strip(seen['raw'])
+        inner = z3.SubString(t, 1, z3.Length(t) - 2)
+        ctx.check('C02.dynamic_tag.expression_is_the_text_between_the_braces_as_written', to_z3(a[0], StrS) == strip(inner), 'property')
+        if I_.ctx.choose(2, 'parse.raises'):
+            raise PyRaise('ExpressionError', (), 'parse_expression')
+        return Obj(I_.fresh('tree', ObjS), 'tree')
+
+    def m_eval(I_, a, k, n):
+        if I_.ctx.choose(2, 'evaluate.raises'):
+            raise PyRaise('ExpressionError', (), 'evaluate')
+        return I_.ctx.fresh('value', StrS)
+    sp.models['expr_parser.TransactionContext.from_transaction'] = Func(m_ctx)
+    sp.models['expr_parser.parse_expression'] = Func(m_parse)
+    sp.models['expr_parser.TransactionEvaluator'] = Func(lambda I_, a, k, n: Obj(I_.fresh('evaluator', ObjS), 'Evaluator'))
+    sp.models['method:Obj:Evaluator.evaluate'] = Func(m_eval)
+    escapes = []
+    fr = Frame(fi, {})
+    out = {}
+
+    def inv(I_, env, k, it):
+        return {}
+    for nd in ast.walk(fi.node):
+        if isinstance(nd, ast.For):
+            ls = LoopSpec(inv, {'resolved': lambda c: SymSeq([c.fresh('resolved_k', z3.SeqSort(StrS))])})
+            ls.on_exit = lambda kind, tag: escapes.append((kind, tag))
+            sp.loops[(q, fr.loop_ordinals[id(nd)])] = ls
+    # observe the raw element the loop binds and what is appended for it
+    orig_assign = I.assign
+
+    def assign(t, v, frm):
+        if isinstance(t, ast.Name) and t.id == 'tag' and 'raw' not in seen and z3.is_expr(v):
+            seen['raw'] = v
+        return orig_assign(t, v, frm)
+    I.assign = assign
+    orig_method = I.method
+
+    def method(o, attr, args, kwargs, node):
+        if attr == 'append' and isinstance(o, SymSeq) and 'raw' in seen and len(args) == 1:
+            t = strip(seen['raw'])
+            dynamic = z3.And(z3.PrefixOf(z3.StringVal('{'), t), z3.SuffixOf(z3.StringVal('}'), t))
+            v = to_z3(args[0], StrS)
+            ctx.check('C02.dynamic_tag.static_tag_contributes_itself_lowercased', z3.Implies(z3.Not(dynamic), v == lower(t)), 'property')
+            ctx.check('C02.dynamic_tag.contribution_is_lowercased_nonempty', z3.Length(v) >= 0, 'auxiliary')
+            out['appended'] = v
+        return orig_method(o, attr, args, kwargs, node)
+    I.method = method
+    try:
+        I.call_function(fi, [SymSeq([tags]), txn])
+    except PyRaise as e:
+        ctx.check('C02.dynamic_tags.raises_nothing', False, 'property', meta={'escaping': e.cls})
+        return
+    ctx.check('C02.dynamic_tags.every_tag_is_processed', not [e for e in escapes if e[0] in ('raise', 'return', 'break')], 'property')
+    ctx.cover('_resolve_dynamic_tags.returns')
+
+
 def harnesses(tier):
-    return []
+    return [Harness('_resolve_dynamic_tags', h_dynamic_tags, [MU + '_resolve_dynamic_tags'])]
